@@ -1,0 +1,275 @@
+//! Verification hooks. Compiled only with the `verif-hooks` cargo feature; never part of a normal
+//! build. Gives an external harness access to crate-private pieces (frame codec, greeting / READY
+//! serialisers, handshake over arbitrary I/O halves, fair queue, `try_send`) without changing them.
+
+use crate::codec::{
+    FrameableRead, FrameableWrite, FramedIo, Message, TrySend, ZmqCodec, ZmqCommand, ZmqFramedWrite,
+    ZmqGreeting,
+};
+use crate::fair_queue::FairQueue;
+use crate::util::PeerIdentity;
+use crate::{MultiPeerBackend, SocketType, ZmqError, ZmqMessage, ZmqResult};
+
+use asynchronous_codec::{Decoder, Encoder, FramedWrite};
+use bytes::{Bytes, BytesMut};
+use futures::Stream;
+
+use std::cell::Cell;
+use std::hash::Hash;
+use std::pin::Pin;
+use std::sync::Arc;
+use std::task::{Context, Poll};
+
+/// A decoded item in a form the harness can inspect.
+#[derive(Debug, Clone, PartialEq, Eq)]
+pub enum Item {
+    /// version major, minor, mechanism name, as_server
+    Greeting(u8, u8, &'static str, bool),
+    /// command name, properties sorted by name
+    Command(&'static str, Vec<(String, Vec<u8>)>),
+    Message(Vec<Vec<u8>>),
+}
+
+pub fn item_of(m: Message) -> Item {
+    match m {
+        Message::Greeting(g) => Item::Greeting(
+            g.version.0,
+            g.version.1,
+            g.mechanism.as_str(),
+            g.as_server,
+        ),
+        Message::Command(c) => {
+            let mut props: Vec<(String, Vec<u8>)> = c
+                .properties
+                .iter()
+                .map(|(k, v)| (k.clone(), v.to_vec()))
+                .collect();
+            props.sort();
+            Item::Command(c.name.as_str(), props)
+        }
+        Message::Message(m) => Item::Message(m.iter().map(|f| f.to_vec()).collect()),
+    }
+}
+
+/// The crate's frame codec, driven directly.
+pub struct Codec(ZmqCodec);
+
+impl Default for Codec {
+    fn default() -> Self {
+        Self::new()
+    }
+}
+
+impl Codec {
+    pub fn new() -> Self {
+        Codec(ZmqCodec::new())
+    }
+
+    /// `Ok(None)`: need more bytes. `Err(variant name of CodecError)`.
+    pub fn decode(&mut self, src: &mut BytesMut) -> Result<Option<Item>, String> {
+        match self.0.decode(src) {
+            Ok(None) => Ok(None),
+            Ok(Some(m)) => Ok(Some(item_of(m))),
+            Err(e) => Err(codec_err_name(&format!("{:?}", e))),
+        }
+    }
+
+    pub fn encode_message(&mut self, m: ZmqMessage, dst: &mut BytesMut) -> Result<(), String> {
+        self.0
+            .encode(Message::Message(m), dst)
+            .map_err(|e| codec_err_name(&format!("{:?}", e)))
+    }
+
+    pub fn state(&self) -> String {
+        format!("{:?}", self.0)
+    }
+}
+
+fn codec_err_name(dbg: &str) -> String {
+    dbg.split(|c: char| !c.is_ascii_alphanumeric())
+        .next()
+        .unwrap_or("")
+        .to_string()
+}
+
+/// Bytes of the greeting this library sends for the given parameters (`mech`: 0 NULL, 1 PLAIN, 2 CURVE).
+pub fn greeting_bytes(major: u8, minor: u8, mech: u8, as_server: bool) -> Vec<u8> {
+    use crate::codec::mechanism::ZmqMechanism;
+    let g = ZmqGreeting {
+        version: (major, minor),
+        mechanism: match mech {
+            0 => ZmqMechanism::NULL,
+            1 => ZmqMechanism::PLAIN,
+            _ => ZmqMechanism::CURVE,
+        },
+        as_server,
+    };
+    BytesMut::from(g).to_vec()
+}
+
+/// Bytes of the default greeting, as `greet_exchange` sends it.
+pub fn default_greeting_bytes() -> Vec<u8> {
+    BytesMut::from(ZmqGreeting::default()).to_vec()
+}
+
+/// Bytes of the READY command as `ready_exchange` builds it.
+pub fn ready_bytes(socket_type: SocketType, identity: Option<&[u8]>) -> Vec<u8> {
+    let mut ready = ZmqCommand::ready(socket_type);
+    if let Some(id) = identity {
+        let mut props = std::collections::HashMap::new();
+        props.insert("Identity".to_string(), Bytes::copy_from_slice(id));
+        ready.add_properties(props);
+    }
+    BytesMut::from(ready).to_vec()
+}
+
+/// Bytes of a READY command with arbitrary properties (insertion through the crate's own map).
+pub fn ready_bytes_props(socket_type: SocketType, props: &[(String, Vec<u8>)]) -> Vec<u8> {
+    let mut ready = ZmqCommand::ready(socket_type);
+    for (k, v) in props {
+        ready.add_prop(k.clone(), Bytes::copy_from_slice(v));
+    }
+    BytesMut::from(ready).to_vec()
+}
+
+/// Runs the real greeting + READY exchange and the backend's registration over harness-supplied
+/// halves (what `connect` / the accept callback do with a transport stream).
+pub async fn attach(
+    backend: Arc<dyn MultiPeerBackend>,
+    r: Box<dyn FrameableRead>,
+    w: Box<dyn FrameableWrite>,
+) -> ZmqResult<PeerIdentity> {
+    crate::util::peer_connected(FramedIo::new(r, w), backend).await
+}
+
+/// The crate's fair queue over harness-supplied streams.
+pub struct FairQueueProbe<S, K: Clone>(FairQueue<S, K>);
+
+impl<S, T, K> FairQueueProbe<S, K>
+where
+    T: Send,
+    S: Stream<Item = T> + Send + 'static,
+    K: Eq + Hash + Unpin + Clone + Send + Sync + 'static,
+{
+    pub fn new(block_on_no_clients: bool) -> Self {
+        FairQueueProbe(FairQueue::new(block_on_no_clients))
+    }
+
+    pub fn insert(&self, k: K, s: S) {
+        self.0.inner().lock().insert(k, s);
+    }
+
+    pub fn remove(&self, k: &K) {
+        self.0.inner().lock().remove(k);
+    }
+
+    /// A handle that can insert / remove while `poll_next` is running (from inside a stream's poll).
+    pub fn handle(&self) -> FairQueueHandle<S, K> {
+        FairQueueHandle(self.0.inner())
+    }
+
+    pub fn poll_next(&mut self, cx: &mut Context<'_>) -> Poll<Option<(K, T)>> {
+        Pin::new(&mut self.0).poll_next(cx)
+    }
+}
+
+pub struct FairQueueHandle<S, K: Clone>(
+    Arc<parking_lot::Mutex<crate::fair_queue::QueueInner<S, K>>>,
+);
+
+impl<S, K: Clone> Clone for FairQueueHandle<S, K> {
+    fn clone(&self) -> Self {
+        FairQueueHandle(self.0.clone())
+    }
+}
+
+impl<S, K: Clone + Eq + Hash> FairQueueHandle<S, K> {
+    pub fn insert(&self, k: K, s: S) {
+        self.0.lock().insert(k, s);
+    }
+
+    pub fn remove(&self, k: &K) {
+        self.0.lock().remove(k);
+    }
+}
+
+/// The crate's `TrySend::try_send` over a harness-supplied writer.
+pub struct TrySendProbe(Pin<Box<ZmqFramedWrite>>);
+
+impl TrySendProbe {
+    pub fn new(w: Box<dyn FrameableWrite>) -> Self {
+        TrySendProbe(Box::pin(FramedWrite::new(w, ZmqCodec::new())))
+    }
+
+    pub fn high_water_mark(&self) -> usize {
+        self.0.send_high_water_mark()
+    }
+
+    pub fn try_send(&mut self, m: ZmqMessage) -> ZmqResult<()> {
+        self.0.as_mut().try_send(Message::Message(m))
+    }
+
+    /// Number of encoded bytes accepted but not yet handed to the writer.
+    pub fn into_buffered(self) -> Vec<u8> {
+        let fw = *Pin::into_inner(self.0);
+        fw.into_parts().buffer.to_vec()
+    }
+}
+
+/// Small closed classification of `ZmqError` for canonical observations.
+pub fn error_class(e: &ZmqError) -> String {
+    match e {
+        ZmqError::Endpoint(_) => "Endpoint".into(),
+        ZmqError::Network(e) => format!("Network.{:?}", e.kind()),
+        ZmqError::NoSuchBind(_) => "NoSuchBind".into(),
+        ZmqError::Codec(c) => {
+            let d = format!("{:?}", c);
+            if let crate::codec::CodecError::Io(io) = c {
+                format!("Codec.Io.{:?}", io.kind())
+            } else {
+                format!("Codec.{}", codec_err_name(&d))
+            }
+        }
+        ZmqError::Socket(_) => "Socket".into(),
+        ZmqError::BufferFull(_) => "BufferFull".into(),
+        ZmqError::ReturnToSender { .. } => "ReturnToSender".into(),
+        ZmqError::ReturnToSenderMultipart { .. } => "ReturnToSenderMultipart".into(),
+        ZmqError::Task(_) => "Task".into(),
+        ZmqError::Other(_) => "Other".into(),
+        ZmqError::NoMessage => "NoMessage".into(),
+        ZmqError::PeerIdentity => "PeerIdentity".into(),
+        ZmqError::UnsupportedVersion(_) => "UnsupportedVersion".into(),
+    }
+}
+
+thread_local! {
+    static DEPTH: Cell<usize> = const { Cell::new(0) };
+    static MAX_DEPTH: Cell<usize> = const { Cell::new(0) };
+}
+
+/// RAII guard counting nested `ZmqCodec::decode` activations on this thread.
+pub struct DepthGuard;
+
+pub fn depth_enter() -> DepthGuard {
+    DEPTH.with(|d| {
+        let v = d.get() + 1;
+        d.set(v);
+        MAX_DEPTH.with(|m| {
+            if v > m.get() {
+                m.set(v)
+            }
+        });
+    });
+    DepthGuard
+}
+
+impl Drop for DepthGuard {
+    fn drop(&mut self) {
+        DEPTH.with(|d| d.set(d.get() - 1));
+    }
+}
+
+/// Maximum nesting seen since the last call; resets the maximum.
+pub fn take_max_depth() -> usize {
+    MAX_DEPTH.with(|m| m.replace(0))
+}
